@@ -94,3 +94,25 @@ fn replay_c17_mempool_quorum_arithmetic() {
     for f in failures.iter().take(4) { println!("FAILING-INPUT property=C17 {}", f); }
     assert!(failures.is_empty(), "C17 violated on the real code: {:?}", failures);
 }
+
+/// Assumed contract of mempool `Committee::broadcast_addresses` (an iterator chain): every other member once, with its
+/// mempool address - the basis of A-handlers (C12) and of the batch broadcast (C11).
+#[test]
+fn replay_assumed_contracts_mempool() {
+    let mut failures = Vec::new();
+    let c = committee_with_stakes(&[1, 2, 1, 3]);
+    for (me, _) in keys() {
+        let got = c.broadcast_addresses(&me);
+        let mut names: Vec<PublicKey> = got.iter().map(|(n, _)| *n).collect();
+        names.sort();
+        names.dedup();
+        if names.len() != got.len() { failures.push("mempool broadcast_addresses returns a member twice".to_string()); }
+        if names.contains(&me) { failures.push("mempool broadcast_addresses contains the caller itself".to_string()); }
+        if names.len() != 3 { failures.push(format!("mempool broadcast_addresses returns {} of the 3 other members", names.len())); }
+        for (n, a) in &got {
+            if c.mempool_address(n) != Some(*a) { failures.push("mempool broadcast_addresses pairs a member with the wrong address".to_string()); }
+        }
+    }
+    for f in failures.iter().take(4) { println!("FAILING-INPUT property=ASSUMED {}", f); }
+    assert!(failures.is_empty(), "an assumed contract does not hold on the real code: {:?}", failures);
+}
